@@ -194,3 +194,20 @@ class ScriptProcUnpicklable(ScriptProcDefault):
     def _mutate(self, trig):
         super()._mutate(trig)
         self.nested["k"][0] = self.fn(self.nested["k"][0])
+
+
+class ScriptProcNegative(ScriptProc):
+    """asks for timers with a NEGATIVE delay (set_timer for `T:` actions, set_timer_once for `O:` actions): the library documents
+    that this raises ValueError, and an exception of a handler has to surface as an error of the process"""
+
+    def _react(self, trig, data, ctx):
+        for r in self.rules:
+            if r[0] == self.st and r[1] == trig:
+                for a in r[3]:
+                    parts = a.split(":", 3)
+                    if parts[0] == "T":
+                        ctx.set_timer(parts[1], -0.5 * (int(parts[2]) + 1))
+                    elif parts[0] == "O":
+                        ctx.set_timer_once(parts[1], -0.5 * (int(parts[2]) + 1))
+                break
+        super()._react(trig, data, ctx)
